@@ -102,15 +102,30 @@ def run(prog, chk, tier):
                             bodies.append(prog.bodies[x[1]])
                             nxt.append(x[1])
             frontier = nxt
-        refs, xors = [], []
+        # closures created in those bodies (iterator-style loops) belong to them
+        for bb_ in list(bodies):
+            for k_, cb_ in prog.bodies.items():
+                if k_.startswith(bb_.key + "::{closure") and cb_ not in bodies:
+                    bodies.append(cb_)
+        refs, xors, opaque_sites = [], [], 0
         for bb_ in bodies:
             refs += [i for i in const_items(bb_) if i.endswith("Fingerprint::XOR_CONSTANT")]
             og = Origins(prog, bb_)
             for _, _, s in bb_.iter_stmts():
                 if s["k"] == "assign" and s["rv"]["k"] == "binop" and s["rv"]["op"] == "BitXor":
                     xors.append((repr(og.operand(s["rv"]["a"])), repr(og.operand(s["rv"]["b"]))))
-        # every xor site masks with the constant on exactly one side; one site per byte lane or one for the whole word
-        ok = bool(xors) and all(("5354554e" in sa.lower()) != ("5354554e" in sb.lower()) for sa, sb in xors) and len({x for x in xors}) == 1
+            for _, t_ in bb_.calls():
+                if re.search(r"std::ops::BitXor(<.*>)?>::bitxor$", og.callee_name(t_)):
+                    sa, sb = repr(og.operand(t_["args"][0])), repr(og.operand(t_["args"][1]))
+                    if "5354554e" in (sa + sb).lower():
+                        xors.append((sa, sb))
+                    else:
+                        opaque_sites += 1      # operands are the items of zipped iterators: their sources are not visible here
+        # every xor site masks with the constant on exactly one side; one site per byte lane or one for the whole word.
+        # When the lanes are zipped iterators, the site's operands are opaque: then the constant must be referenced by the
+        # function and there must be exactly one such site.
+        ok = (bool(xors) and all(("5354554e" in sa.lower()) != ("5354554e" in sb.lower()) for sa, sb in xors) and len({x for x in xors}) == 1 and not opaque_sites) or \
+            (not xors and opaque_sites == 1)
         chk.ob("xor-constant", "Fingerprint::%s xors the value with XOR_CONSTANT" % nm, bool(refs) and ok,
                detail="%d reference(s), xor operands %r" % (len(refs), xors[:2]), how="constant identity + dependence, through crate-local helpers")
     # ---- (b) CRC algorithm: every crc::Crc<u32> constant of the crate (wherever it is declared)
